@@ -215,7 +215,14 @@ func e2eCase(c map[string]interface{}) map[string]interface{} {
 	var defaults []string
 	for i := 0; i < n; i++ {
 		name := fmt.Sprintf("net%d", i)
-		ncs = append(ncs, map[string]interface{}{"name": name, "type": "ghkeyscni", "obs_dir": dir})
+		nc := map[string]interface{}{"name": name, "type": "ghkeyscni", "obs_dir": dir}
+		if b, _ := c["ipam_section"].(bool); b && i%2 == 0 {
+			// the documented alternative source of addresses ("either from CNI Args ipinfos or ipam CNI plugin"): a third-party ipam
+			// plugin named in the network configuration - used only for pods WITHOUT ipinfos (the binary is absent here: running
+			// it is an error the plugin reports)
+			nc["ipam"] = map[string]interface{}{"type": "verif-absent-ipam", "subnet": "172.16.0.0/24"}
+		}
+		ncs = append(ncs, nc)
 		defaults = append(defaults, name)
 	}
 	conf["NetworkConf"] = ncs
